@@ -244,7 +244,36 @@ def install(handler, g):
         if clause.startswith("dtype_and_shape"):
             return y.dtype != x.dtype or y.shape != x.shape, f"{y.dtype} {tuple(y.shape)}"
         if clause.startswith("argument_not_modified"):
-            return not torch.equal(before, x), "argument changed" if not torch.equal(before, x) else "unchanged"
+            if not torch.equal(before, x):
+                return True, "argument changed"
+            # the frame clause also covers state that survives the call: does an EARLIER quantisation with
+            # another random-bit count of the same E/M change what this format computes?
+            import importlib
+
+            import unit_scaling.formats as fm
+
+            D_ = 23 - M
+            real_randint = torch.randint
+            xs = torch.tensor([0.3, 1.3, -2.7, 0.0, float(consts(E, M)[2])], dtype=torch.float32)
+            msgs = []
+            for other in sorted({0, 1, max(1, D_ - 1), D_} - {s_}):
+                def run(history):
+                    importlib.reload(fm)
+                    out = None
+                    for sb in history:
+                        f = fm.FPFormat(E, M, "stochastic", srbits=sb)
+                        hi_ = 2 ** f.srbits
+                        torch.randint = lambda lo, hi, size, **kw: torch.full(tuple(size), (hi - 1) // 2, dtype=kw.get("dtype", torch.int64))
+                        try:
+                            out = f.quantise(xs.clone())
+                        finally:
+                            torch.randint = real_randint
+                    return out
+                alone, after = run([s_]), run([other, s_])
+                if not torch.equal(alone, after):
+                    msgs.append(f"E{E}M{M} srbits={s_} quantises {xs.tolist()} to {alone.tolist()} in a fresh process but to {after.tolist()} after a quantisation with srbits={other} (same draws)")
+            importlib.reload(fm)
+            return bool(msgs), "; ".join(msgs)[:600] or "unchanged, and independent of earlier quantisations"
         if clause.startswith("representable_input_never_moved"):
             return is_repr(E, M, Fraction(xv)) and bits_from_f32(float(y[0])) != xb, info
         if clause.startswith("representable"):
